@@ -6,7 +6,7 @@ THEOREMS = ["c10_units", "c10_parse_simple", "c10_parse_day", "c10_parse_year", 
             "c10_additive_calc", "c10_additive_combine", "c10_singular_plural_en", "c10_singular_plural_tr"]
 ALLOWED_AXIOMS = []
 DETAIL = 0
-RULE = ("counts from {0,1,2,29,30,31,59,60,61,364,365,366,10^6,random} x every unit spelling of en and tr; sequences of "
+RULE = ("counts from {0,1,2,29,30,31,59,60,61,255,256,257,364,365,366,513,65537,10^6,random} (pinned: 257/513/65537 years and their sums) x every unit spelling of en and tr; sequences of "
         "1-7 parts juxtaposed or joined by + and -; `as` with the five targets; non-trivial = evaluates to a duration; "
         "distinct = distinct text")
 ASSUMPTIONS = ["the reference word table (second(s) .. year(s); saniye .. yil) and unit lengths are fixed in the oracle"]
@@ -18,7 +18,7 @@ TR = {"second": ["saniye"], "minute": ["dakika"], "hour": ["saat"], "day": ["gü
       "month": ["ay"], "year": ["yıl", "yil"]}
 TR_PRINT = {"second": "saniye", "minute": "dakika", "hour": "saat", "day": "gün", "week": "hafta", "month": "ay", "year": "yıl"}
 ORDER = ["year", "month", "week", "day", "hour", "minute", "second"]
-COUNTS = [0, 1, 2, 29, 30, 31, 59, 60, 61, 364, 365, 366, 10 ** 6]
+COUNTS = [0, 1, 2, 29, 30, 31, 59, 60, 61, 255, 256, 257, 364, 365, 366, 513, 65537, 10 ** 6]
 
 
 def secs_of(n, unit):
@@ -60,6 +60,15 @@ def generate(rng, tier):
                 for c in (COUNTS if tier != "quick" else rng.sample(COUNTS, 3)):
                     s = secs_of(c, u)
                     cases.append(exec_case("%d %s" % (c, w), lang, kind="single-" + lang, expect=s, out=render(s, lang)))
+    # pinned: component counts that are 1 modulo a power of two are not "1 year" (the singular row is for the count 1 only)
+    for text, secs in (("257 years", 257 * LEN["year"]), ("513 years", 513 * LEN["year"]), ("65537 years", 65537 * LEN["year"]),
+                       ("200 years + 57 years", 257 * LEN["year"]), ("300 years - 43 years", 257 * LEN["year"]),
+                       ("3084 months", 257 * LEN["year"]), ("256 years 12 months 3 hours", 257 * LEN["year"] + 3 * 3600),
+                       ("93805 days", 93805 * 86400), ("257 weeks", 257 * LEN["week"]), ("257 hours", 257 * 3600),
+                       ("1 year", LEN["year"]), ("256 years", 256 * LEN["year"])):
+        cases.append(exec_case(text, "en", kind="pinned-en", expect=secs, out=render(secs, "en")))
+    for text, secs in (("257 yıl", 257 * LEN["year"]), ("1 yıl", LEN["year"])):
+        cases.append(exec_case(text, "tr", kind="pinned-tr", expect=secs, out=render(secs, "tr")))
     while len(cases) < n:
         lang = "en" if rng.random() < 0.75 else "tr"
         table = EN if lang == "en" else TR
